@@ -41,7 +41,7 @@ func init() {
 		Doc: "a node enters the NodeCache only after the store is known to hold it: every NodeCache.Add is dominated by the nil-error edge of a Persist.Store or Persist.Load call of the same function " +
 			"(the cache doubles as the 'already persisted' oracle that lets a later flush skip the write).",
 		Run: runCACHEAFTER})
-	Register(&Rule{ID: "CACHEKEY", Props: []string{"C03", "C02", "C01"}, Min: 4,
+	Register(&Rule{ID: "CACHEKEY", Props: []string{"C03", "C02", "C01", "C19"}, Min: 4,
 		Doc: "every NodeCache call builds its key as Sprintf(\"%s/%s\", P.NodeURLPrefix(), name) from the same Persist value P that the function uses for Load/Store and the same name it loads/stores, " +
 			"so a cache shared between stores with different prefixes never short-circuits a write or serves a foreign node.",
 		Run: runCACHEKEY})
